@@ -108,7 +108,7 @@ def ref_run(comp, mm, open_msg, nz, frames):
     return delivered, None, None
 
 
-def classify_viol(comp: int, prestate: int, mm: int, fin: bool, rsv: int, opcode: int, form: int, n: int,
+def classify_viol(comp: int, prestate: int, fl: int, mm: int, fin: bool, rsv: int, opcode: int, form: int, n: int,
                   rep: int, pb: Tuple[int, int, int]):
     if not fin and RSVS[1][rsv] in (0, 4) and OPS[1][opcode] in (3, 4, 5, 6, 7) and prestate < 2 and P.POOL == 1:
         return "unknown_opcode_nonfinal_abort_deferred"
@@ -117,17 +117,20 @@ def classify_viol(comp: int, prestate: int, mm: int, fin: bool, rsv: int, opcode
     return None
 
 
-def pre_viol(comp: int, prestate: int, mm: int, fin: bool, rsv: int, opcode: int, form: int, n: int,
+def pre_viol(comp: int, prestate: int, fl: int, mm: int, fin: bool, rsv: int, opcode: int, form: int, n: int,
              rep: int, pb: Tuple[int, int, int]) -> bool:
     for i in range(3):
         if not 0 <= pb[i] < 128:
             return False
     if not (0 <= comp <= 1 and 0 <= prestate <= 3 and 2 <= mm <= 4 and 0 <= rsv < len(RSVS[P.POOL])
-            and 0 <= opcode < len(OPS[P.POOL]) and 0 <= form <= 2 and 0 <= n <= P.L and 0 <= rep <= 2):
+            and 0 <= opcode < len(OPS[P.POOL]) and 0 <= form <= 2 and 0 <= n <= P.L and 0 <= rep <= 2
+            and 0 <= fl <= 1):
         return False
     if prestate == 3 and comp == 0:
         return False
-    if not in_shard(prestate + 4 * comp):
+    if prestate < 2 and fl != 0:
+        return False            # fl = payload length of the already received first fragment (pre-states 2, 3)
+    if not in_shard(prestate + 4 * comp + 8 * fl):
         return False
     cop = OPS[P.POOL][R.pick(opcode, len(OPS[P.POOL]))]
     crsv = RSVS[P.POOL][R.pick(rsv, len(RSVS[P.POOL]))]
@@ -136,10 +139,10 @@ def pre_viol(comp: int, prestate: int, mm: int, fin: bool, rsv: int, opcode: int
         return False
     if cop >= 8 and form == 0:
         # reference exempts control frames from max_message_size; tornado counts them (see `outside`)
-        openlen = 1 if prestate == 2 else 2 if prestate == 3 else 0
+        openlen = fl if prestate == 2 else 2 * fl if prestate == 3 else 0
         if n + openlen > mm:
             return False
-    if classify_viol(comp, prestate, mm, fin, rsv, opcode, form, n, rep, pb) in P.exclude:
+    if classify_viol(comp, prestate, fl, mm, fin, rsv, opcode, form, n, rep, pb) in P.exclude:
         return False
     # reach twins only: steer the witness search into the neighbourhood of the tag (a subset of the bounds above)
     if P.reach == "rsv1_on_control_with_compression":
@@ -147,7 +150,11 @@ def pre_viol(comp: int, prestate: int, mm: int, fin: bool, rsv: int, opcode: int
     if P.reach == "too_big_after_decompression":
         return starts_compressed and rep > 0
     if P.reach == "too_big_fragmented":
-        return prestate >= 2 and cop == 0
+        return prestate >= 2 and cop == 0 and fl == 1
+    if P.reach == "new_data_after_empty_fragment":
+        return prestate >= 2 and fl == 0 and cop in (1, 2) and form == 0 and (crsv == 0 or (crsv == 4 and comp == 1))
+    if P.reach == "continuation_after_empty_fragment_delivered":
+        return prestate >= 2 and fl == 0 and cop == 0 and crsv == 0 and fin and form == 0
     if P.reach == "continuation_without_start":
         return prestate < 2 and cop == 0 and crsv == 0
     if P.reach == "unknown_opcode":
@@ -159,9 +166,10 @@ def pre_viol(comp: int, prestate: int, mm: int, fin: bool, rsv: int, opcode: int
     pre=pre_viol,
     quick=dict(L=2, POOL=0, timeout=200, reach_timeout=60),
     thorough=dict(L=3, POOL=1, timeout=1400, reach_timeout=120),
-    nshards=dict(quick=8, thorough=8),
+    nshards=dict(quick=16, thorough=16),
     reach=["rsv1_on_control_with_compression", "too_big_after_decompression", "too_big_fragmented",
-           "valid_then_later_delivered", "continuation_without_start", "unknown_opcode"],
+           "valid_then_later_delivered", "continuation_without_start", "unknown_opcode",
+           "new_data_after_empty_fragment", "continuation_after_empty_fragment_delivered"],
     classify=classify_viol,
     units=["websocket.WebSocketProtocol13._receive_frame", "websocket.WebSocketProtocol13._handle_message",
            "websocket.WebSocketProtocol._abort", "websocket.WebSocketProtocol13.close",
@@ -172,7 +180,10 @@ def pre_viol(comp: int, prestate: int, mm: int, fin: bool, rsv: int, opcode: int
            "tornado.websocket.struct -> pure-Python B/H/Q shim; _websocket_mask -> python version (frames unmasked)",
            "pre-state through the real loop: 0 fresh, 1 one complete message already delivered (compressed if "
            "compression is on), 2 inside an uncompressed fragmented text message, 3 inside a compressed fragmented "
-           "binary message; then ONE arbitrary frame (fin, 3 RSV bits, opcode 0..15 except 8, length form 7/16/64, "
+           "binary message - in both the already received first fragment (FIN=0) carries fl in {0, 1} payload units "
+           "(uncompressed: b'' or b'a'; compressed: b'' or the 2-byte deflate stand-in header, the rest of the "
+           "compressed stream then travels in the first continuation frame), so a fragmented message whose buffered "
+           "payload is EMPTY is a pre-state; then ONE arbitrary frame (fin, 3 RSV bits, opcode 0..15 except 8, length form 7/16/64, "
            "0..L symbolic ASCII payload bytes, expansion count), then a concrete valid tail (completes an open "
            "message, then a text message 'L8')",
            "max_message_size symbolic in 2..4", "quick: opcode from {0,1,2,3,9,10,11} and RSV from {0,4,1,2,5} by symbolic index; thorough: all 15 opcodes (8 = close is C16) and all 8 RSV combinations"],
@@ -181,7 +192,7 @@ def pre_viol(comp: int, prestate: int, mm: int, fin: bool, rsv: int, opcode: int
              "excluded by pre, reported as an observation",
              "corrupt deflate data (zlib.error)", "invalid UTF-8 (h_utf8)", "masked frames (C14 h_rx_len)"],
 )
-def h_viol(comp: int, prestate: int, mm: int, fin: bool, rsv: int, opcode: int, form: int, n: int,
+def h_viol(comp: int, prestate: int, fl: int, mm: int, fin: bool, rsv: int, opcode: int, form: int, n: int,
            rep: int, pb: Tuple[int, int, int]):
     R.apply_shims(symbolic_mask=False)
     with install() as env:
@@ -198,15 +209,20 @@ def h_viol(comp: int, prestate: int, mm: int, fin: bool, rsv: int, opcode: int, 
             else:
                 st.feed(R.frame(True, 0, 2, b""))
             prior.append((2, b""))
-        elif prestate == 2:
-            st.feed(R.frame(False, 0, 1, b"a"))
-            open_msg = [1, False, [b"a"]]
+        pending = b""        # rest of the open message's compressed stream: goes into its first continuation frame
+        cfl = R.pick(fl, 2)
+        if prestate == 2:
+            first = b"a"[:cfl]
+            st.feed(R.frame(False, 0, 1, first))
+            open_msg = [1, False, [first]]
         elif prestate == 3:
-            st.feed(R.frame(False, 4, 2, R.z_compress(0, b"")))
-            open_msg = [2, True, [R.z_compress(0, b"")]]
+            z = R.z_compress(0, b"")
+            first, pending = z[:2 * cfl], z[2 * cfl:]
+            st.feed(R.frame(False, 4, 2, first))
+            open_msg = [2, True, [first]]
             nz = 1
         env.run_ready()
-        assert not st.closed()
+        assert not st.closed() and rec.msgs == [m for _, m in prior]
         # ---- the arbitrary frame
         crsv = RSVS[P.POOL][R.pick(rsv, len(RSVS[P.POOL]))]
         cop = OPS[P.POOL][R.pick(opcode, len(OPS[P.POOL]))]
@@ -214,12 +230,14 @@ def h_viol(comp: int, prestate: int, mm: int, fin: bool, rsv: int, opcode: int, 
         payload = bytes([pb[0], pb[1], pb[2]][:R.pick(n, 4)])
         if comp == 1 and cop in (1, 2) and crsv & 4:
             payload = R.z_compress(nz, payload, rep=R.pick(rep, 3))
+        if cop == 0 and open_msg is not None:
+            payload, pending = pending + payload, b""
         sym = (fin, crsv, cop, payload, cform != 0)
         # ---- concrete valid tail
         opens = (cop in (1, 2) and not fin) or (open_msg is not None and not (cop == 0 and fin))
         tail = []
         if opens:
-            tail.append((True, 0, 0, b"!", False))
+            tail.append((True, 0, 0, (pending if open_msg is not None else b"") + b"!", False))
         tail.append((True, 0, 1, b"L8", False))
         delivered, vidx, reason = ref_run(comp, mm, open_msg, nz, [sym] + tail)
         st.feed(R.frame(fin, crsv, cop, payload, form=cform))
@@ -234,6 +252,8 @@ def h_viol(comp: int, prestate: int, mm: int, fin: bool, rsv: int, opcode: int, 
         got = [(1, m.encode("utf-8")) if isinstance(m, str) else (2, m) for m in rec.msgs]
         if vidx is None:
             reached("valid_then_later_delivered")
+            if open_msg is not None and cfl == 0 and cop == 0 and fin:
+                reached("continuation_after_empty_fragment_delivered")
             assert not st.closed() and not task.done(), "valid sequence but the connection was aborted"
             assert got == prior + delivered, "delivered %r, reference %r" % (got, prior + delivered)
         else:
@@ -245,6 +265,8 @@ def h_viol(comp: int, prestate: int, mm: int, fin: bool, rsv: int, opcode: int, 
                 reached("too_big_fragmented")
             if reason == "continuation without a start":
                 reached("continuation_without_start")
+            if reason == "new data frame inside a fragmented message" and vidx == 0 and cfl == 0:
+                reached("new_data_after_empty_fragment")
             if reason == "unknown opcode":
                 reached("unknown_opcode")
             assert got == prior + delivered, \
